@@ -54,7 +54,17 @@ func propC09(c *Check) {
 		if len(calls) == 2 {
 			first := Extract(1, Is(calls[0].(*ssa.Call)))
 			c.MustPass(f, Gate{Name: "first verdict finalized => return it", RejectOnTrue: true, Cond: first}, []ssa.Instruction{calls[1]}, "the legacy retry (only after the current rule failed)")
-			c.MustPass(f, Gate{Name: "usePredictiveNodeRemovalSignerSet(timestamp) => no retry", RejectOnTrue: true, Cond: Call("(*kernel.Node).usePredictiveNodeRemovalSignerSet")}, []ssa.Instruction{calls[1]}, "the legacy retry (only before the signer-set fork)")
+			// the fork test is made on the snapshot's own timestamp T (the T of the first verification),
+			// not on the earlier legacy timestamp: inside the first operation window after the fork the
+			// legacy timestamp still precedes the fork
+			var ts1 ssa.Value
+			if ex, isEx := calls[0].Common().Args[4].(*ssa.Extract); isEx {
+				if ck, isCall := ex.Tuple.(*ssa.Call); isCall && calleeName(&ck.Call) == "(*kernel.Chain).ConsensusKeys" {
+					ts1 = ck.Call.Args[2]
+				}
+			}
+			forkT := func(v ssa.Value) bool { return ts1 != nil && v == ts1 }
+			c.MustPass(f, Gate{Name: "usePredictiveNodeRemovalSignerSet(timestamp) => no retry", RejectOnTrue: true, Cond: Call("(*kernel.Node).usePredictiveNodeRemovalSignerSet", nil, forkT)}, []ssa.Instruction{calls[1]}, "the legacy retry (only before the signer-set fork, judged at the snapshot's own timestamp)")
 		}
 	}
 	if f := c.F("(*kernel.Node).cacheVerifyCosi"); f != nil {
